@@ -190,19 +190,21 @@ def get_dummy_prior():
     return _DUMMY_PRIOR
 
 
-def stub_library(n, ln_prior=None, extra_units=None):
+def stub_library(n, ln_prior=None, extra_units=None, dtype=None):
     """JokerSamples library with row id i at P = 1+i days; other nonlinear columns are
-    distinct, exactly representable tags."""
+    distinct, exactly representable tags.  dtype: store the columns in that precision (e.g. float32: all tags stay exact
+    for n < 2**17)."""
     import astropy.units as u
     import thejoker as tj
 
     s = tj.JokerSamples()
     ids = np.arange(n, dtype=float)
-    s["P"] = (1.0 + ids) * u.day
-    s["e"] = (ids + 1) / 64.0 * u.one
-    s["omega"] = (ids + 1) / 8.0 * u.rad
-    s["M0"] = (ids + 1) / 4.0 * u.rad
-    s["s"] = (ids + 1) / 2.0 * u.km / u.s
+    dt = np.dtype(dtype) if dtype is not None else np.dtype(float)
+    s["P"] = u.Quantity((1.0 + ids).astype(dt), u.day, dtype=dt)
+    s["e"] = u.Quantity(((ids + 1) / 64.0).astype(dt), u.one, dtype=dt)
+    s["omega"] = u.Quantity(((ids + 1) / 8.0).astype(dt), u.rad, dtype=dt)
+    s["M0"] = u.Quantity(((ids + 1) / 4.0).astype(dt), u.rad, dtype=dt)
+    s["s"] = u.Quantity(((ids + 1) / 2.0).astype(dt), u.km / u.s, dtype=dt)
     if ln_prior is not None:
         s["ln_prior"] = np.asarray(ln_prior, dtype=float)
     return s
